@@ -1169,3 +1169,139 @@ class ActiveOpt(Obj):
 
 
 KERNELS += [WithPassiveInputs]
+
+
+# ------------------------------------------------------------------ target_link.cpp: who gets scheduled when a bound target ticks
+
+TLTU2 = "src/hgraph/types/time_series/ts_input/target_link.cpp"
+
+
+class TargetLinkNotify(Kernel):
+    tu = TLTU2
+    scope = {"lo": 0, "hi": 3}
+    name = "target_link.cpp:TSInputTargetLinkState::notify"
+    fn_name = "notify"
+    filter = "TSInputTargetLinkState::notify"
+    property_ids = ("C03",)
+    title = "TSInputTargetLinkState::notify: a target tick schedules the owning node only through a locally active root observation"
+
+    def setup(self, I):
+        ctx = I.ctx
+        self.T = z3.Int("modified_time")
+        self.owner_null, self.root_null = z3.Bool("owner_null"), z3.Bool("root_null")
+        self.locally_active, self.sched_subscribed, self.same = z3.Bool("root_locally_active"), z3.Bool("root_scheduling_subscribed"), \
+            z3.Bool("root_observes_this_target")
+        self.kind = z3.Int("root_observation_kind")
+        g = Obj("ghost", "ng")
+        self.g = g
+        for nm in ("owner_told", "notified"):
+            ctx.store[(g.oid, nm)] = z3.IntVal(0)
+        ctx.store[(g.oid, "notified_t")] = z3.IntVal(-9)
+        k = self
+        th = Obj("TSInputTargetLinkState", "this_state")
+        owner = Obj("owner", "owner")
+
+        def told(I_2, a, n):
+            I_2.ctx.write(Loc((g.oid, "owner_told")), I_2.ctx.store[(g.oid, "owner_told")] + 1)
+            return VOID
+        owner.m_record_target_modified = told
+        ctx.store[(th.oid, "owner")] = Ptr(owner, self.owner_null)
+        root = Obj("TSInputTargetActiveNode", "root")
+        ctx.store[(root.oid, "locally_active")] = self.locally_active
+        ctx.store[(root.oid, "observation_kind")] = self.kind
+        ctx.store[(root.oid, "scheduling_subscribed")] = self.sched_subscribed
+        obs = Obj("TSOutputHandle", "observed")
+        obs.m_same_as = lambda I_2, a, n: k.same
+        ctx.store[(root.oid, "observed")] = obs
+        ctx.store[(th.oid, "target")] = Obj("TSOutputHandle", "target")
+        notifier = Obj("Notifier", "scheduling_notifier")
+
+        def notif(I_2, a, n):
+            I_2.ctx.write(Loc((g.oid, "notified")), I_2.ctx.store[(g.oid, "notified")] + 1)
+            I_2.ctx.write(Loc((g.oid, "notified_t")), I_2.ctx.rv(a[0]))
+            return VOID
+        notifier.m_notify = notif
+        ctx.store[(th.oid, "scheduling_notifier")] = notifier
+        self.root = root
+        return th, {"modified_time": self.T}
+
+    def method_handler(self, obj, name, node):
+        if name == "active_root":
+            return lambda I, o, a, n: Ptr(self.root, self.root_null)
+        return Kernel.method_handler(self, obj, name, node)
+
+    def enum_const(self, I, ref):
+        if ref.get("name") == "Value":
+            return z3.IntVal(1)
+        raise Gap("enum constant %s" % ref.get("name"))
+
+    def post(self, I, ret):
+        ctx = I.ctx
+        g = lambda nm: ctx.store[(self.g.oid, nm)]
+        should = z3.And(z3.Not(self.root_null), self.locally_active, self.kind == 1, z3.Not(self.sched_subscribed), self.same)
+        ctx.oblige("ensures.the-node-is-scheduled-only-through-a-locally-active-root[C03 a passive input, and an input made passive at "
+                   "run time, never triggers evaluation]", z3.Implies(g("notified") >= 1, z3.And(z3.Not(self.root_null), self.locally_active)),
+                   kind="post-normal")
+        ctx.oblige("ensures.scheduled-exactly-when-the-active-root-rides-on-this-link's-own-observer,at-the-tick's-time[C03 an active "
+                   "input's tick triggers evaluation]", z3.And(g("notified") == z3.If(should, 1, 0), z3.Implies(should, g("notified_t") == self.T)),
+                   kind="post-normal")
+        ctx.oblige("ensures.owner-told-once-iff-present", g("owner_told") == z3.If(self.owner_null, 0, 1), kind="post-normal")
+
+
+class TargetLinkMakePassive(Kernel):
+    tu = TLTU2
+    scope = {"lo": 0, "hi": 3}
+    name = "target_link.cpp:TSInputTargetLinkStorage::make_passive"
+    fn_name = "make_passive"
+    filter = "TSInputTargetLinkStorage::make_passive"
+    property_ids = ("C03",)
+    title = "TSInputTargetLinkStorage::make_passive: an active observation is torn down and the node marked not active"
+
+    def setup(self, I):
+        ctx = I.ctx
+        self.arg_null, self.root_null = z3.Bool("node_argument_null"), z3.Bool("root_null")
+        g = Obj("ghost", "mg")
+        self.g = g
+        ctx.store[(g.oid, "unsubscribed")] = z3.IntVal(0)
+        ctx.store[(g.oid, "unsubscribed_root")] = z3.BoolVal(False)
+        self.nodes = {}
+        for nm in ("arg", "root"):
+            o = Obj("TSInputTargetActiveNode", nm + "_node")
+            ctx.store[(o.oid, "locally_active")] = z3.Bool(nm + "_locally_active0")
+            ctx.store[(o.oid, "scheduling_subscribed")] = z3.Bool(nm + "_scheduling_subscribed")
+            self.nodes[nm] = o
+        th = Obj("TSInputTargetLinkStorage", "this_storage")
+        st = Obj("TSInputTargetLinkState", "state_")
+        ctx.store[(st.oid, "scheduling_notifier")] = Obj("Notifier", "scheduling_notifier")
+        k = self
+        st.m_active_root = lambda I_2, a, n: Ptr(k.nodes["root"], k.root_null)
+        ctx.store[(th.oid, "state_")] = st
+        return th, {"node": Ptr(self.nodes["arg"], self.arg_null)}
+
+    def function_handler(self, name, node, callee_node):
+        if name == "unsubscribe_node":
+            def un(I, a, n):
+                ctx = I.ctx
+                tgt = ctx.rv(a[0])
+                ctx.write(Loc((self.g.oid, "unsubscribed")), ctx.store[(self.g.oid, "unsubscribed")] + 1)
+                ctx.write(Loc((self.g.oid, "unsubscribed_root")), z3.BoolVal(tgt is self.nodes["root"]))
+                return VOID
+            return un
+        return Kernel.function_handler(self, name, node, callee_node)
+
+    def post(self, I, ret):
+        ctx = I.ctx
+        g = lambda nm: ctx.store[(self.g.oid, nm)]
+        la = lambda nm: ctx.store[(self.nodes[nm].oid, "locally_active")]
+        la0 = lambda nm: z3.Bool(nm + "_locally_active0")
+        # the addressed node: the argument, or the root when the argument is null
+        for nm, cond in (("arg", z3.Not(self.arg_null)), ("root", z3.And(self.arg_null, z3.Not(self.root_null)))):
+            ctx.oblige("ensures.%s:an-active-observation-is-unsubscribed-once-and-marked-not-active[C03 an input made passive at run "
+                       "time stops triggering evaluation]" % nm,
+                       z3.Implies(cond, z3.And(z3.Not(la(nm)), g("unsubscribed") == z3.If(la0(nm), 1, 0),
+                                               z3.Implies(la0(nm), g("unsubscribed_root") == z3.BoolVal(nm == "root")))), kind="post-normal")
+        ctx.oblige("ensures.no-node=>nothing-happens", z3.Implies(z3.And(self.arg_null, self.root_null), g("unsubscribed") == 0),
+                   kind="post-normal")
+
+
+KERNELS += [TargetLinkNotify, TargetLinkMakePassive]
